@@ -22,7 +22,7 @@ META = {
                  "joins; 0-2 counters per element (symbolic); inductive step: partition, partition_unique, "
                  "sliding_window, zip, combine_latest, zip_latest, collect with buffers of <= 2 entries and "
                  "unconstrained symbolic counter values",
-        "thorough": "bounded: all 1282 type-compatible chains of 2 (3 elements), units alone 6 elements; inductive: histories <= 3; async schedules <= 8 steps",
+        "thorough": "bounded: chains of 2 core units with 3 key values (3 elements), units alone 6 elements; inductive: histories <= 3; async schedules <= 8 steps",
     },
     "outside": ["the same RefCounter attached to two different elements (aliasing)"],
     "stubs": ["event loop: engine/vloop.py"],
@@ -131,12 +131,12 @@ def obligations(tier):
     for n3 in ("punique3_last", "punique3_first"):
         obls.append(_obl("A/%s/k=4/one-dict-each" % n3, {"template": "chain", "units": [n3], "small": True,
                                                        "nmd_range": (1, 1)}, 4, B))
-    for ch in (SP.chains(2, SP.CORE) if q else SP.chains(2)):
+    for ch in SP.chains(2, SP.CORE):
         small = SP.inspects(ch)
         kk = 3
         obls.append(_obl("B/chain/%s/k=%d" % ("+".join(ch), kk),
                          {"template": "chain", "units": list(ch), "small": small,
-                          "dom": 1}, kk, B, flush=("collect" in ch)))
+                          "dom": 1 if q else 2}, kk, B, flush=("collect" in ch)))
     if False:
         for ch in SP.chains(3, SP.CORE):
             if "collect" in ch and SP.hashes(ch):
